@@ -11,7 +11,7 @@ RULE = ("cases = (pair of equal-length arrays, dtype pair, ufunc) for all arrays
 ASSUMPTIONS = ["numpy on the decoded arrays is the reference (NaN matches NaN)", "float values are dyadic; only correctly rounded float ufuncs",
                "results must satisfy the run-length constructor invariant; two-operand results must have adjacent runs joined"]
 REQUIRED_FEATURES = ["boundaries_coincide", "boundaries_interleave", "boundaries_nested", "result_needs_rejoin", "scalar_left", "undefined_reference",
-                     "histogram", "concatenate", "reduction", "reduction_of_unjoined_array"]
+                     "histogram", "concatenate", "reduction", "reduction_of_unjoined_array", "same_left_operand_sequence"]
 BOUNDS = {"quick": "all pairs of arrays L<=3 over 3 values x all pairs of {bool,int8,int64,uint8,float64} x 13 binary ufuncs; L=4 for int64 x int64 (5 ufuncs); "
                    "scalars {2, 2.5, True, np.int8(3), np.float32(1.5)} both sides x 13 ufuncs, 6 unary ufuncs, sum/any/all/max/mean, histogram (1-4 bins, with range), "
                    "concatenate of 2-3 arrays, for all arrays L<=4",
@@ -37,12 +37,19 @@ def shards(tier):
     for d1 in VALS:
         out.append({"single": d1, "lmax": 4 if tier == "quick" else 6})
     out.append({"medium": 1})
+    out.append({"seq": 1})
     out.append({"pair": ["f64close", "f64close"], "lmax": 3, "few": 1})
     out.append({"pair": ["f64close", "int64"], "lmax": 2, "few": 1})
     return out
 
 
 def cases(shard, tier):
+    if "seq" in shard:
+        for d1 in ("int64", "float64", "bool"):
+            for L in (2, 3, 4):
+                for t1 in itertools.product(range(len(VALS[d1])), repeat=L):
+                    yield ["seq", d1, list(t1)]
+        return
     if "medium" in shard:
         # 40-element operands with unrelated run boundaries (size / threshold effects)
         t1 = [0] * 9 + [1] * 1 + [2] * 14 + [0, 1, 0, 1] + [2] * 12
@@ -166,6 +173,8 @@ def check(case, acc):
         excl = u in FLOAT_EXCLUDED and (d1 == "float64" or isinstance(s, (float, np.floating)))
         if _bounds(t1):
             acc.nontrivial()
+    elif kind == "seq":
+        return _check_seq(case, acc, a, ra)
     elif kind == "red":
         return _check_red(case, acc, a, ra)
     elif kind == "red2":
@@ -235,6 +244,49 @@ def check(case, acc):
             o2 = attempt(lambda: decode(obj).tolist())
             if o2 != dense.tolist():
                 acc.fail("operand-modified", (name, dense.tolist()), o2)
+
+
+def _check_seq(case, acc, a, ra):
+    """the SAME left operand object combined, one after the other, with every other array of its length (each right operand a
+    temporary that dies before the next one is created), then the in-place spelling; every result is compared"""
+    from npstructures import RunLengthArray
+    import gc
+    d1 = case[1]
+    L = len(a)
+    acc.feature("same_left_operand_sequence")
+    acc.nontrivial()
+    others = [_arr(d1, t2) for t2 in itertools.product(range(len(VALS[d1])), repeat=L)]
+    for u in (np.add, np.maximum, np.logical_and):
+        for b in others:
+            try:
+                e = u(a, b)
+            except Exception:  # noqa: BLE001
+                continue
+            o = attempt(lambda: _result_obs(u(ra, RunLengthArray.from_array(b.copy())), True))
+            acc.trans()
+            if o != dense_obs(e, dt=True):
+                acc.fail("wrong-values-in-a-sequence-on-one-left-operand", dense_obs(e, dt=True), o, note=u.__name__)
+                return
+        gc.collect()
+    # in-place spelling: x += y rebinds x to the result (or updates it); either way x must decode to a + b afterwards
+    for b in others[:6]:
+        try:
+            e = a + b
+        except Exception:  # noqa: BLE001
+            continue
+
+        def inplace():
+            x = RunLengthArray.from_array(a.copy())
+            x += RunLengthArray.from_array(b.copy())
+            return _result_obs(x, False)
+        o = attempt(inplace)
+        acc.trans()
+        if o != dense_obs(e, dt=True):
+            acc.fail("in-place-add-decodes-wrong", dense_obs(e, dt=True), o)
+            return
+    post = attempt(lambda: dense_obs(decode(ra), dt=False))
+    if post != dense_obs(a, dt=False):
+        acc.fail("operand-modified", a.tolist(), post)
 
 
 def _check_red(case, acc, a, ra):
